@@ -20,12 +20,14 @@ def _known(env):
     return f
 
 
-def _setup(env, m=None, conv=None, rename=None, only=None):
+def _setup(env, m=None, conv=None, rename=None, only=None, atoms=False):
     """-> (manager, converter, path condition of env).  `rename` maps terms before conversion (to compare paths of
     different functions over common variable names)."""
     if m is None:
         m = BDD()
-        conv = TermBV(m, _known(env))
+        if atoms:
+            m.limit = 250000        # proof attempts are best effort: give up early, the caller falls back to "unknown"
+        conv = TermBV(m, _known(env), atoms=atoms)
     K = 1
     ren = (lambda t: subst(t, rename)) if rename else (lambda t: t)
     for kind, t, v in getattr(env, 'log', ()):
@@ -35,7 +37,7 @@ def _setup(env, m=None, conv=None, rename=None, only=None):
         if only is not None and not (_symnames(t2) <= only):
             continue
         lim = m.limit
-        m.limit = len(m.node) + 50000
+        m.limit = min(lim, len(m.node) + 50000)
         try:
             e = conv(t2).eq(v)
             K2 = m.AND(K, e if kind == 'eq' else m.NOT(e))
@@ -69,20 +71,19 @@ def _fit(x, width):
 
 def equal_under(t1, t2, env, width):
     try:
-        m, conv, K = _setup(env)
+        m, conv, K = _setup(env, atoms=True)
         a, b = _fit(conv(t1), width), _fit(conv(t2), width)
     except (Unsupported, RecursionError):
         return None
     if a is None or b is None:
         return None
-    if any(n.startswith('ext:') for n in m.rank):
-        return None
-    return m.AND(K, a.diff(b)) == 0
+    # a proof (True) holds for every value of the uninterpreted atoms / unmodelled results; a failed proof is "unknown"
+    return True if m.AND(K, a.diff(b)) == 0 else None
 
 
 def const_diff_under(t1, t2, env, width):
     try:
-        m, conv, K = _setup(env)
+        m, conv, K = _setup(env, atoms=True)
         a, b = _fit(conv(t1), width), _fit(conv(t2), width)
     except (Unsupported, RecursionError):
         return None
